@@ -171,6 +171,9 @@ fn validate_marshalled_container_at_depth(
             let offset = offset + padding;
             let bytes_in_array =
                 util::parse_u32(&buf[offset..], byteorder).map_err(|err| (offset, err))?;
+            if bytes_in_array as usize > crate::wire::unmarshal::MAX_ARRAY_LEN {
+                return Err((offset, UnmarshalError::MessageTooLong));
+            }
             let offset = offset + 4;
 
             if buf[offset..].len() < bytes_in_array as usize {
@@ -214,6 +217,9 @@ fn validate_marshalled_container_at_depth(
             let offset = offset + padding;
             let bytes_in_dict =
                 util::parse_u32(&buf[offset..], byteorder).map_err(|err| (offset, err))?;
+            if bytes_in_dict as usize > crate::wire::unmarshal::MAX_ARRAY_LEN {
+                return Err((offset, UnmarshalError::MessageTooLong));
+            }
             let offset = offset + 4;
 
             if buf[offset..].len() < bytes_in_dict as usize {
